@@ -1,5 +1,5 @@
 # replay of a bounded stand-in violation (C02): re-run native/c02_preps.py
 import sys
-print('sMZgate._decompose puts one operation object into several commands (inverting the decomposition flips its flag twice)')
+print('Gaussian(diagonal V_xx=1.0, V_pp=2.5) on modes [0]: decomposed and natively applied operation give different states (max difference 1.5)')
 print('REPLAY-VIOLATION')
 sys.exit(1)
